@@ -13,11 +13,13 @@ class C18(Prop):
     id = "C18"
     level = "other"
     design_ref = "§8 C18"
-    level_text = ("Lean: verified checker for 'the axes contain every alternative exactly once and the profile "
-                  "restricted to each axis is single-peaked on it' and verified brute-force minimum over all set "
-                  "partitions. Validity of the approximate partition inherits the unproved exactness of "
-                  "longest_single_peaked_axis; minimality of the DFS is compared with the verified minimum on every "
-                  "run (tested, not proved)")
+    level_text = ("Lean: a statement-faithful model of k_alt_partition_approx (repeated longest_single_peaked_axis, incl. CPython "
+                  "set order; same output as the real function on 12 000+ profiles) with theorems that its axes always "
+                  "partition the alternatives and that the profile restricted to each axis is single-peaked on it "
+                  "(partition_cert, partition_perm, termination via partitionLoop_fuel); verified partition checker and "
+                  "verified brute-force minimum over all set partitions (setPartitions_sound/complete). Validity and "
+                  "minimality of k_alternative_partition_brut_force and its None contract are compared with these on every "
+                  "run for every k (tested, not proved)")
     level_note = "Lean kernel + standard axioms for checker / brute force; the partition algorithms are outside Lean"
     technique = "Lean-verified partition checker and brute-force minimum; differential correspondence"
     theorems = [
